@@ -4,6 +4,7 @@ import CwPlus.Lemmas.Ics20Env
 import CwPlus.Lemmas.Ics20TotalSent
 import CwPlus.Lemmas.Ics20Ledger
 import CwPlus.Lemmas.Ics20Honest
+import CwPlus.Props.C18
 /-!
 # C12 — cw20-ics20: channel balance tracks vouchers exactly; error acks change nothing
 
@@ -1017,5 +1018,44 @@ example : ((run w0 [(b0, .sendCw20 "alice" "T1" 40 (some tm)), (b0, .recv (pkt (
       (.timeout "channel-0" (some pT1) true true false)).isOk = false ∧
     (checkGasLimit (run w0 [(b0, .sendCw20 "alice" "T1" 40 (some tm)), (b0, .recv (pkt (.cw20 "T1") 40) true true false)]).st
       (.cw20 "T1") true).isOk = true := by decide
+
+/-! ### Honest counterparty and a contract deployed with the current code: refunds are always processed -/
+
+/-- **C12, refund_always_processed_fresh** (honest counterparty + C18 `in_channel_payable`): for a contract
+created by `instantiate` (any allow list, any default gas limit or none), on every honest annotated
+history (governance ops and migrations by anybody anywhere), for every packet still pending on a channel,
+the timeout and the error acknowledgement of that packet — with the cw20 address of its denomination
+validating (`tv = true`; it was `info.sender` of the original `Receive`) — are **processed**: the
+transaction succeeds and emits the refund of the full amount to the original sender, with the gas limit
+`expectedGas` (the token's allow-list limit, else the default).  Neither the channel balance (honest
+counterparty) nor the gas check (the token passed the transfer gate, and the allow list only loosens) can
+refuse it.  The refund sub-call itself may still fail; it is then swallowed (`C11.refund_effects_*`). -/
+theorem refund_always_processed_fresh {m : InstMsg} {s : State} (hi : instantiate m = .ok s) (w : World) (evs : List HEv)
+    (hh : HonestFrom (HState.init { w with st := s }) evs) {chan : String} {p : Packet}
+    (hm : (chan, p) ∈ (runH (HState.init { w with st := s }) evs).c.pending) (blk : Block) (sv f : Bool) :
+    (∃ w' o, (run { w with st := s } (opsOf evs)).exec blk (.timeout chan (some p) sv true f) = .ok (w', o) ∧
+      o.sub = some ⟨p.sender, p.amount, p.denom, C18.expectedGas (run { w with st := s } (opsOf evs)).st p.denom, ACK_FAILURE_ID⟩) ∧
+    (∃ w' o, (run { w with st := s } (opsOf evs)).exec blk (.ack chan (some p) (some false) sv true f) = .ok (w', o) ∧
+      o.sub = some ⟨p.sender, p.amount, p.denom, C18.expectedGas (run { w with st := s } (opsOf evs)).st p.denom, ACK_FAILURE_ID⟩) := by
+  have hv := instantiate_postV3S hi
+  obtain ⟨_, _, hle, hok⟩ := refund_never_refused { w with st := s } hv evs hh hm
+  have hpos := (runH_inv evs (hinv_init { w with st := s } hv) hh).pending_pos _ hm
+  simp only at hpos
+  apply hok blk sv true f
+  cases hd : p.denom with
+  | native dn => rfl
+  | cw20 t =>
+    rw [hd] at hle
+    have hpos' : 0 < outstanding (run { w with st := s } (opsOf evs)).st chan (.cw20 t) := by omega
+    exact (C18.in_channel_payable hi w (opsOf evs) chan t (Or.inr hpos')).2
+
+/-- a fresh instantiation and an honest history to which `refund_always_processed_fresh` applies: T1 is
+allow-listed, alice's 40 T1 are pending -/
+example : ∃ s, instantiate ⟨3600, ⟨true, "gov"⟩, [(⟨true, "T1"⟩, some 500)], none⟩ = .ok s ∧
+    HonestFrom (HState.init { w0 with st := s })
+      [.op b0 (.connect "channel-0" ICS20_VERSION none false {}), .op b0 (.sendCw20 "alice" "T1" 40 (some tm))] ∧
+    ("channel-0", pT1) ∈ (runH (HState.init { w0 with st := s })
+      [.op b0 (.connect "channel-0" ICS20_VERSION none false {}), .op b0 (.sendCw20 "alice" "T1" 40 (some tm))]).c.pending :=
+  ⟨_, rfl, ⟨trivial, trivial, trivial⟩, by decide⟩
 
 end CwPlus.Props.C12
